@@ -37,6 +37,19 @@ func c10PersistRunFrom(path []int, ops []c10Op, alt bool) (key, detail string) {
 	el := [c10E]*secp256k1.Element{fromRaw(st.e[0]), fromRaw(st.e[1])}
 	sc := [c10S]*secp256k1.Scalar{scalarRaw(st.s[0]), scalarRaw(st.s[1])}
 
+	if alt {
+		// objects with a past: the second pool's generator and small scalar are MADE by the API (Base(), SetUInt64)
+		// instead of being written as raw limbs, so whatever such a call attaches to the object besides its limbs
+		// (a table, a memo, a flag) is there from the start - provided the call yields the very limbs of the pool state
+		if b := secp256k1.NewElement().Base(); rawOf(b) == st.e[1] {
+			el[1] = b
+		}
+
+		if two := secp256k1.NewScalar().SetUInt64(2); [4]uint64(two.S) == st.s[0] {
+			sc[0] = two
+		}
+	}
+
 	for step, oi := range path {
 		o := ops[oi]
 		nm, err := c10Step(&el, &sc, m, o)
@@ -410,7 +423,7 @@ func C10persist(r *ev.Report) {
 		}
 	}
 
-	r.Rule("real curve, histories on persistent objects: every history of depth 1 and 2 over the full operation alphabet of C10real and every history of depth 3 over a sub-alphabet (thorough tier: over the full alphabet; quick: Multiply, Double, Add, Subtract, Set, Base, Negate, Decode(Encode), Pow, Invert, MinusOne, HashToGroup - every receiver/argument choice) is executed from the initial pool on one set of long-lived objects that are mutated in place, and EVERY variable is compared with the abstract model after every step; exposes state remembered by object identity, which the rebuild-from-raw-state BFS cannot see; non-trivial = histories of depth >= 2")
+	r.Rule("real curve, histories on persistent objects: every history of depth 1 and 2 over the full operation alphabet of C10real and every history of depth 3 over a sub-alphabet (thorough tier: over the full alphabet; quick: Multiply, Double, Add, Subtract, Set, Base, Negate, Decode(Encode), Pow, Invert, MinusOne, HashToGroup - every receiver/argument choice) is executed from the initial pool (depth <= 2: also from a second pool holding a re-scaled 5G and the element Base() made) on one set of long-lived objects that are mutated in place, and EVERY variable is compared with the abstract model after every step; exposes state remembered by object identity, which the rebuild-from-raw-state BFS cannot see; non-trivial = histories of depth >= 2")
 	r.Bound("operation_instances", len(ops))
 	r.Bound("sub_alphabet", len(sub))
 	r.Bound("histories", len(paths))
@@ -427,6 +440,18 @@ func C10persist(r *ev.Report) {
 
 		if key, detail := c10PersistRun(p, ops); key != "" {
 			r.Violation(key, detail, Case{"op": "persist", "path": fmt.Sprint(p)})
+		}
+
+		// the same history from a non-initial pool (a re-scaled 5G next to the element that Base() made): state that
+		// one variable acquired from an earlier call is already there, so two steps reach what takes three or four
+		// from the initial pool
+		if len(p) <= 2 {
+			r.Transitions.Add(int64(len(p)))
+			r.Evals.Add(1)
+
+			if key, detail := c10PersistRunFrom(p, ops, true); key != "" {
+				r.Violation(key, detail, Case{"op": "persist", "path": fmt.Sprint(p), "alt": "true"})
+			}
 		}
 	})
 
